@@ -552,6 +552,12 @@ Proof.
     repeat match goal with |- context [i ?f] => rewrite (H f) by tauto end; reflexivity.
 Qed.
 
+Lemma lex_get_nth : forall lx w, lex_get lx w = nth_error lx (N.to_nat w).
+Proof.
+  intros lx w. unfold lex_get. destruct (w <? N.of_nat (List.length lx)) eqn:E; [reflexivity|].
+  symmetry. apply nth_error_None. lia.
+Qed.
+
 Definition lex_ok (lx : lexicon) : Prop := forall bs, In bs lx -> parse ALL bs <> None.
 Definition deps_loaded (L : N) (a : acc) : Prop := forall d, In d (acc_deps a) -> N.testbit L d = true.
 
@@ -646,7 +652,7 @@ Proof.
       + exists oA. rewrite (Hfield F_dfwi ltac:(discriminate) E4). split; [exact EcA|reflexivity].
       + rewrite Hdef. cbn [default_info as_int]. unfold consult_val.
         destruct ((0 <=? 0)%Z && negb (0 =? Z.of_N wid)%Z) eqn:Ec; [|exists None; split; [reflexivity|discriminate]].
-        change (Z.to_N 0) with 0. unfold lex_get in Eb |- *. change (N.to_nat 0) with O.
+        change (Z.to_N 0) with 0. rewrite lex_get_nth in Eb |- *. change (N.to_nat 0) with O.
         destruct lx as [|bs0 lx']; [destruct (N.to_nat wid); discriminate|]. cbn [nth_error].
         destruct (parse ALL bs0) as [i0|] eqn:E0; [|exfalso; apply (Hlex bs0 (or_introl eq_refl)); exact E0].
         destruct (parse_subset_gen HR _ _ _ _ subset_one_all E0) as (inner & E1 & _). rewrite E1.
